@@ -25,6 +25,7 @@ ACV_CONSTS = """CONSTANTS
   CloseOnCompileSuccess = FALSE
   SkipCloseOnError = FALSE
   PanicEscapes = FALSE
+  LockAcrossDispatch = FALSE
 """
 
 TRACE_CFG = "SPECIFICATION TraceSpec\n" + ACV_CONSTS + """INVARIANT TraceInvariants
@@ -42,7 +43,7 @@ def model_check(cfgname, what, workers=None, timeout=900):
 
 def negative_control(flag, expect):
     """Turn one named deviation on; TLC must refute `expect` (non-vacuity of the invariants)."""
-    cfg = open(os.path.join(vlib.SPEC, "cfg", "ACV_protocol.cfg" if flag != "SplitGenvar" else "ACV_concurrent.cfg")).read()
+    cfg = open(os.path.join(vlib.SPEC, "cfg", "ACV_protocol.cfg" if flag not in ("SplitGenvar", "LockAcrossDispatch") else "ACV_concurrent.cfg")).read()
     cfg = cfg.replace("%s = FALSE" % flag, "%s = TRUE" % flag)
     r = vlib.run_tlc("neg_" + flag, "MCACV", cfg, timeout=600)
     if r.violated not in (expect if isinstance(expect, (list, tuple)) else [expect]):
